@@ -240,6 +240,21 @@ def builder_rules(ck):
                 o = f.origins(rv["ops"][i], deep=True)
                 ok = has_call_origin(o, r"EncodedPayload::size$") and has_call_origin(o, r"Payload::encode$|PayloadLike::encode$")
         ck.ob("DEFUSE", f.path, "payload-size-is-size-of-encoding", ok, "header.payload_size = payload.encode().size()" if ok else "the declared payload size is not the size of the encoded payload", f.loc())
+    # signing with sufficient keys always verifies: the signer uses the thresholds as COUNTS - it signs with the first
+    # `threshold` credentials and, in each, the first `threshold` keys - whatever their indices are (index sets may have
+    # gaps; selecting "indices below the threshold" signs with too few credentials on an account whose indices are sparse)
+    for pth in sorted(c.paths()):
+        if not re.search(r"::AccountKeys as .*(TransactionSigner>::sign_transaction_hash|ExactSizeTransactionSigner>::num_keys)(::.closure#[0-9]+.)*$", pth):
+            continue
+        for b in c.get_all(pth):
+            f = Fn(b)
+            takes = [(bi, t) for (bi, t) in f.calls(r"Iterator::take$") if ("field", "threshold") in f.origins(t["args"][1], deep=True)]
+            byidx = f.calls(r"BTreeMap::<.*>::range(_mut)?$|BTreeMap<.*>::range(_mut)?$|::split_off$|Iterator::take_while$|Iterator::filter$")
+            if not takes and not byidx and "{closure" in pth:
+                continue
+            ck.ob("DEFUSE", f.path, "threshold-used-as-a-count", len(takes) >= 1 and not byidx,
+                  "the first `threshold` entries are selected with take(threshold)" if takes and not byidx else
+                  "the signer selects by key value (%s) instead of taking `threshold` many entries: an access structure with gaps in its indices is signed with too few keys" % [t["f"]["name"] for (_, t) in byidx], f.loc(byidx[0][0]) if byidx else f.loc())
     # the digest that gets signed is computed after the last change of the header
     n = 0
     for p in sorted(c.paths()):
